@@ -470,6 +470,9 @@ def run_tier(tier, t0):
     for first in alphabet:
         blocks.append(("tokens", "cover", first, k, alphabet))
     blocks = [b for b in blocks if b[0] != "tokens0"]
+    # resync ring: stray preamble bytes, rejected frames, good frames and frames missing their first byte
+    for first in streams.RESYNC_ALPHABET:
+        blocks.append(("tokens", "cover", first, 4 if q else 5, streams.RESYNC_ALPHABET))
     blocks.append(("long",))
     blocks.append(("swallow",))
     blocks += [("short", f) for f in streams.FRAME_TOKENS]
@@ -488,7 +491,7 @@ def run_tier(tier, t0):
             f"all byte strings over {[hex(x) for x in streams.SIGMA]}: length<={L_full} x 256 configurations, "
             f"length<={L_cover} x 6 covering configurations"
             + (f", length<={L_def} x default configuration" if L_def else "")
-            + f"; all token sequences of length<={k} over {len(alphabet)} tokens (frames, noise, preamble fragments) x 6 configurations. "
+            + f"; all token sequences of length<={k} over {len(alphabet)} tokens (frames, noise, preamble fragments) x 6 configurations; resync ring: all sequences of length<={4 if q else 5} over {len(streams.RESYNC_ALPHABET)} tokens (single preamble bytes, rejected and good frames of each protocol, and good frames missing their first byte) x 6 configurations. "
             "Collisions: streams of 2-4 frames that agree in class, ID, length and checksum bytes but not in payload (Fletcher collisions, and copies corrupted under the old checksum), 4 class/IDs x 5 lengths x every position x 6 configurations. Consumption programs: every program of <= 3 operations from {read(), next(reader), for statement left after one item, for statement run out} followed by a draining for statement, 19 first tokens x 3 five-token streams x {BytesIO, BufferedReader, non-seekable} x 2 configurations (raw items consecutive slices over the whole session). "
             "distinct_nontrivial = distinct (number of items, set of protocols delivered) outcome classes"
         ),
